@@ -2,6 +2,7 @@ import SqlModel.Pipeline
 import SqlModel.KwNorm
 import SqlProofs.SplitValue
 import SqlProofs.Respell.All
+import SqlProofs.WsInv.WsInvariant
 /-!
 # C11 — parsing is insensitive to inter-token whitespace and keyword letter case
 
@@ -12,9 +13,13 @@ evaluates `tokView` on both spellings of every generated script: stream DOMAIN(v
 (keyword leaves keep their `kwNorm`, whitespace leaves may get any contextually equivalent value, everything else is untouched) and then
 grouping gives exactly the re-spelling of the grouped forest — same classes, same shape, same leaf types, same error — for every input, every
 fuel, all 25 passes (`SqlProofs/Respell/*`).  Keyword re-casing and re-spelling the whitespace inside multi-word keywords are admissible
-(`respell_group_case`, `respell_group_kwWs`).  Not a theorem: invariance under changing the *number or type* of whitespace tokens (`a  b` vs
-`a b`, blank vs line break: the lexer emits one token per whitespace character) — established by the metamorphic oracle on the real code and by
-S-TREE on both spellings.
+(`respell_group_case`, `respell_group_kwWs`).  Changing the *number or type* of whitespace tokens (`a  b` vs `a b`, blank vs line break: the lexer emits one token per whitespace
+character): `whitespace_count_invariant` — on the decidable domain `InDomain` (no comment token, no `:=` token, and the `CREATE TABLE … AS` scan
+of `group_functions` blind to whitespace children: `WsDomain`, never false on 164 637 corpus statements) the grouped trees of two statements with
+the same non-whitespace tokens are equal after deleting whitespace leaves (`skel`): same classes, same nesting, same significant leaves; even
+deleting all whitespace tokens gives the same skeleton (`group_skel_canonical`).  Outside the domain the statement is FALSE for the library
+(witness pairs on the real code: adjacent comments separated by a blank vs a line break; `:=` chains whose stale indexes count whitespace
+tokens): known findings KF-C11-1/2.  The metamorphic oracle on the real code and S-TREE on both spellings cover the grammar scripts.
 -/
 namespace Sql.C11
 
@@ -47,5 +52,11 @@ theorem respell_group_ascii_lower : type_of% @Sql.respell_group_asciiLower := @S
 theorem respell_group_keyword_whitespace : type_of% @Sql.respell_group_kwWs := @Sql.respell_group_kwWs
 /-- two non-empty whitespace runs are interchangeable in any context (`ORDER  BY` = `ORDER\nBY` under `kwNorm`) -/
 theorem whitespace_runs_equivalent : type_of% @Sql.ctxEq_ws := @Sql.ctxEq_ws
+
+/-- **whitespace-count invariance** (decidable domain `InDomain`): two flat statements with the same non-whitespace tokens and whitespace in the
+same gaps (`WsEquiv`) group to trees with identical skeletons -/
+theorem whitespace_count_invariant : type_of% @Sql.ws_invariant_partial' := @Sql.ws_invariant_partial'
+/-- … and grouping the statement with ALL whitespace tokens deleted gives the skeleton of the original tree -/
+theorem group_skel_canonical : type_of% @Sql.group_skel_canonical := @Sql.group_skel_canonical
 
 end Sql.C11
